@@ -290,6 +290,15 @@ def _run_case(x, xr, case, nvars, c0, engine, stats, tainted):
                             actor.harvest_combos(
                                 {d: sel[d] for d in dims}, overwrite=pol,
                                 sync=sync, verbosity=0, **ekw)
+                        elif o == "cases" and op.get("as_dicts"):
+                            # each case a dict, keys in an order of its own
+                            dcs_ = []
+                            for i_, l_ in enumerate(locs):
+                                it_ = list(zip(dims, l_))
+                                r_ = (i_ + op["as_dicts"]) % len(it_)
+                                dcs_.append(dict(it_[r_:] + it_[:r_]))
+                            actor.harvest_cases(dcs_, overwrite=pol,
+                                                sync=sync, verbosity=0, **ekw)
                         elif o == "cases":
                             actor.harvest_cases(locs, overwrite=pol, sync=sync,
                                                 fn_args=tuple(dims),
@@ -623,6 +632,7 @@ def strategy(draw):
         st.fixed_dictionaries({"op": st.just("cases"),
                                "locs": st.lists(st.tuples(idx, idx, idx),
                                                 min_size=1, max_size=4),
+                               "as_dicts": st.sampled_from([0, 0, 1, 2]),
                                "epoch": epochs, "overwrite": policy,
                                "sync": syncs, "scribble": scrib}),
         st.fixed_dictionaries({"op": st.just("add_ds"), "sel": sel3,
